@@ -1,8 +1,616 @@
-//! C03 — monitor not built yet.
+//! C03 — replay fidelity: live frames = log = sidecar = snapshot; lossless frame round trip.
+//!
+//! (A) frames: a table-driven generator builds a `rip_kernel::Event` for EVERY `EventKind`
+//! variant (optional fields absent/present, empty collections, awkward unicode, 64 KiB strings,
+//! nested JSON with null / u64::MAX / negative / float / deep nesting in every `Value` field),
+//! every leaf a unique token. Oracle, independent of the exact wire shape:
+//!   (i)   wire(e) == wire(read(wire(e))) on JSON values (absent == null for top-level keys only),
+//!   (ii)  stream_kind()/stream_id() of the re-read frame equal the original's (and the documented kind),
+//!   (iii) every token / full string / unique number occurs in wire(e),
+//!   (iv)  every token occurs in the Debug rendering of read(wire(e)); Debug(e) == Debug(read) unless
+//!         an Option<Value> held Some(null),
+//!   (v)   the documented envelope keys are present with the right values,
+//! the same through `EventLog::append`→`replay`/`replay_stream` and `write_snapshot`→`read_snapshot`.
+//! Compat aliases (`prompt`, `output`, `content`) are fed as inputs too.
+//!
+//! (B) histories: C01-style workloads with live collectors attached from the first frame; after
+//! quiescence, per continuity: live == log filtered == sidecar file == `replay_events()` (cache and
+//! log path) == thread SSE replay; per session / task: live == log == snapshot file and
+//! `rip_log::verify_snapshot` passes. Frame-for-frame JSON equality in order.
+
 use crate::report::{Cfg, Report};
+use crate::truth;
+use rip_kernel::Event;
+use serde_json::{json, Value};
+
+#[path = "c03_gen.rs"]
+mod gen;
+#[path = "c03_hist.rs"]
+mod hist;
+
+use gen::{documented_stream_kind, variant_name, Flavor, Gen, FLAVORS, N_VARIANTS};
 
 pub fn run(cfg: &Cfg) -> i32 {
-    let mut r = Report::new("C03", "exploration", "not built");
-    r.fatal_inconclusive("monitor not built yet");
+    let mut r = Report::new(
+        "C03",
+        "exploration",
+        "(A) generated frames: every EventKind variant × 8 payload flavours × seeded leaves, each round-tripped \
+         through serde, EventLog append/replay and snapshot write/read; distinct = distinct (variant, flavour, \
+         presence/shape signature); (B) seeded histories (actor threads over continuities + sessions + tasks via \
+         engine and router, live collectors from the first frame, restart, cache deletion) compared place by \
+         place; distinct = distinct (stream kind, frame-type sequence) of the compared streams",
+    );
+    r.assume("floats in generated payloads are dyadic (serde_json without float_roundtrip does not promise more)");
+    if let Some(path) = cfg.replay.clone() {
+        let v: Value = std::fs::read(&path).ok().and_then(|b| serde_json::from_slice(&b).ok()).unwrap_or(Value::Null);
+        let seed = v.get("seed").and_then(|x| x.as_u64()).unwrap_or(cfg.seed);
+        let w = v.get("witness").cloned().unwrap_or(Value::Null);
+        match w.get("part").and_then(|x| x.as_str()) {
+            Some("B") => {
+                let case = w.get("case").and_then(|x| x.as_u64()).unwrap_or(0);
+                let rt = crate::fixture::runtime(8);
+                let mut rng = crate::prng::Rng::derive(seed, 1_000_000 + case);
+                hist::one_history(cfg, &mut r, &rt, &mut rng, case);
+            }
+            _ => {
+                let case = w.get("case").and_then(|x| x.as_u64()).unwrap_or(0);
+                frames_case(&mut r, seed, case);
+                directed_frames(&mut r);
+            }
+        }
+        return r.finish(cfg);
+    }
+
+    // ---- (A) ----
+    // directed inputs run in every shard that owns case 0 (deterministic, cheap)
+    if cfg.mine(0) {
+        directed_frames(&mut r);
+    }
+    let a_budget = cfg.budget_s * 0.35;
+    let a_cases = cfg.tier.pick(24_000u64, 4_000_000u64);
+    let mut i = 0u64;
+    let mut batch: Vec<Event> = Vec::new();
+    while i < a_cases && r.elapsed() < a_budget {
+        let idx = i;
+        i += 1;
+        if !cfg.mine(idx) {
+            continue;
+        }
+        if let Some(e) = frames_case(&mut r, cfg.seed, idx) {
+            batch.push(e);
+        }
+        if batch.len() >= 76 {
+            files_round_trip(&mut r, &mut batch, idx);
+        }
+    }
+    if !batch.is_empty() {
+        files_round_trip(&mut r, &mut batch, i);
+    }
+    r.count("a_cases_generated", r.evaluations);
+
+    // ---- (B) ----
+    let rt = crate::fixture::runtime(8);
+    let s = crate::sched::sched();
+    let mut case = 0u64;
+    let max_cases = cfg.tier.pick(400u64, 1_000_000u64);
+    while case < max_cases && !r.over(cfg) {
+        let idx = case;
+        case += 1;
+        if !cfg.mine(idx) {
+            continue;
+        }
+        let mut rng = cfg.case_rng(1_000_000 + idx);
+        hist::one_history(cfg, &mut r, &rt, &mut rng, idx);
+    }
+    s.reset();
+    drop(rt);
+    if r.counters.get("b_streams_compared").copied().unwrap_or(0) == 0 && r.violations.is_empty() {
+        r.inconclusive("no history stream was compared in this shard");
+    }
     r.finish(cfg)
+}
+
+// ---------------------------------------------------------------------------------------------
+// (A) oracle
+
+fn wire(e: &Event) -> Result<(String, Value), (&'static str, String)> {
+    let text = serde_json::to_string(e).map_err(|e| ("serialize_failed", format!("serialize: {e}")))?;
+    let v: Value = serde_json::from_str(&text)
+        .map_err(|e| ("wire_unparseable", format!("the serialized frame is rejected by the JSON reader: {e}")))?;
+    Ok((text, v))
+}
+
+/// Strict JSON equality, except that at the top level of a frame an absent key equals null.
+pub fn frame_eq(a: &Value, b: &Value) -> bool {
+    // `resets[*].ref` is an Option<Value> too: Some(null) and None are the same wire value there
+    fn strip_ref_nulls(v: &Value) -> Value {
+        let mut v = v.clone();
+        if let Some(rs) = v.get_mut("resets").and_then(|x| x.as_array_mut()) {
+            for r in rs {
+                if let Some(m) = r.as_object_mut() {
+                    if m.get("ref").map(|x| x.is_null()).unwrap_or(false) {
+                        m.remove("ref");
+                    }
+                }
+            }
+        }
+        v
+    }
+    let has_resets = |v: &Value| v.get("resets").is_some();
+    if has_resets(a) || has_resets(b) {
+        return frame_eq_top(&strip_ref_nulls(a), &strip_ref_nulls(b));
+    }
+    frame_eq_top(a, b)
+}
+
+fn frame_eq_top(a: &Value, b: &Value) -> bool {
+    match (a, b) {
+        (Value::Object(x), Value::Object(y)) => {
+            for (k, v) in x {
+                match y.get(k) {
+                    Some(w) => {
+                        if !strict_eq(v, w) {
+                            return false;
+                        }
+                    }
+                    None => {
+                        if !v.is_null() {
+                            return false;
+                        }
+                    }
+                }
+            }
+            y.iter().all(|(k, w)| x.contains_key(k) || w.is_null())
+        }
+        _ => strict_eq(a, b),
+    }
+}
+
+pub fn strict_eq(a: &Value, b: &Value) -> bool {
+    match (a, b) {
+        (Value::Object(x), Value::Object(y)) => {
+            x.len() == y.len() && x.iter().all(|(k, v)| y.get(k).map(|w| strict_eq(v, w)).unwrap_or(false))
+        }
+        (Value::Array(x), Value::Array(y)) => x.len() == y.len() && x.iter().zip(y).all(|(p, q)| strict_eq(p, q)),
+        (Value::Number(x), Value::Number(y)) => {
+            if x == y {
+                return true;
+            }
+            // same mathematical value in a different number class (1 vs 1.0) is not a loss
+            match (x.as_u64(), y.as_u64(), x.as_i64(), y.as_i64()) {
+                (Some(p), Some(q), _, _) => p == q,
+                (_, _, Some(p), Some(q)) => p == q,
+                _ => x.is_f64() && y.is_f64() && x.as_f64() == y.as_f64(),
+            }
+        }
+        _ => a == b,
+    }
+}
+
+fn leaves<'a>(v: &'a Value, strings: &mut Vec<&'a str>, numbers: &mut Vec<&'a serde_json::Number>) {
+    match v {
+        Value::String(s) => strings.push(s),
+        Value::Number(n) => numbers.push(n),
+        Value::Array(a) => a.iter().for_each(|x| leaves(x, strings, numbers)),
+        Value::Object(m) => {
+            for (k, x) in m {
+                strings.push(k);
+                leaves(x, strings, numbers);
+            }
+        }
+        _ => {}
+    }
+}
+
+/// All tokens `<prefix><digits>z` occurring in `hay`, in one pass.
+fn tokens_in(hay: &str, prefix: &str, out: &mut std::collections::HashSet<String>) {
+    if prefix.is_empty() {
+        return;
+    }
+    let bytes = hay.as_bytes();
+    for (pos, _) in hay.match_indices(prefix) {
+        let mut j = pos + prefix.len();
+        let start = j;
+        while j < bytes.len() && bytes[j].is_ascii_digit() {
+            j += 1;
+        }
+        if j > start && j < bytes.len() && bytes[j] == b'z' {
+            out.insert(hay[pos..=j].to_string());
+        }
+    }
+}
+
+fn token_prefix(tokens: &[String]) -> String {
+    // tokens are `tk<salt>q<n>z`
+    tokens.first().and_then(|t| t.rfind('q').map(|i| t[..=i].to_string())).unwrap_or_default()
+}
+
+struct Expected {
+    tokens: Vec<String>,
+    strings: Vec<String>,
+    numbers: Vec<serde_json::Number>,
+    some_null: bool,
+}
+
+/// Judge one frame through the serde round trip. Returns a list of (check, detail) failures.
+fn judge_frame(e: &Event, exp: &Expected) -> Vec<(&'static str, String)> {
+    let mut bad: Vec<(&'static str, String)> = Vec::new();
+    let name = variant_name(&e.kind);
+    let (text, w) = match wire(e) {
+        Ok(x) => x,
+        Err((check, err)) => {
+            bad.push((check, err));
+            return bad;
+        }
+    };
+    // (v) envelope
+    let env_ok = w.get("id").and_then(|x| x.as_str()) == Some(e.id.as_str())
+        && w.get("session_id").and_then(|x| x.as_str()) == Some(e.session_id.as_str())
+        && w.get("stream_id").and_then(|x| x.as_str()) == Some(e.session_id.as_str())
+        && w.get("stream_kind").and_then(|x| x.as_str()) == Some(documented_stream_kind(name))
+        && w.get("timestamp_ms").and_then(|x| x.as_u64()) == Some(e.timestamp_ms)
+        && w.get("seq").and_then(|x| x.as_u64()) == Some(e.seq)
+        && w.get("type").and_then(|x| x.as_str()) == Some(name);
+    if !env_ok {
+        let env: serde_json::Map<String, Value> = ["id", "session_id", "stream_kind", "stream_id", "timestamp_ms", "seq", "type"]
+            .iter()
+            .map(|k| (k.to_string(), w.get(*k).cloned().unwrap_or(json!("<absent>"))))
+            .collect();
+        bad.push(("envelope", format!("envelope of the wire frame is {} for a {name} frame", Value::Object(env))));
+    }
+    // (iii) nothing lost at write
+    let mut ss = Vec::new();
+    let mut ns = Vec::new();
+    leaves(&w, &mut ss, &mut ns);
+    let prefix = token_prefix(&exp.tokens);
+    let mut found = std::collections::HashSet::new();
+    for s in &ss {
+        tokens_in(s, &prefix, &mut found);
+    }
+    for t in &exp.tokens {
+        if !found.contains(t) {
+            bad.push(("token_lost_at_write", format!("token {t} not in the wire frame")));
+            break;
+        }
+    }
+    let leafset: std::collections::HashSet<&str> = ss.iter().copied().collect();
+    for s in &exp.strings {
+        if !leafset.contains(s.as_str()) {
+            bad.push(("string_altered_at_write", format!("a {}-byte string is not an exact leaf of the wire frame", s.len())));
+            break;
+        }
+    }
+    for n in &exp.numbers {
+        if !ns.iter().any(|x| *x == n) {
+            bad.push(("number_lost_at_write", format!("number {n} not in the wire frame")));
+            break;
+        }
+    }
+    // read
+    let back: Event = match serde_json::from_str(&text) {
+        Ok(b) => b,
+        Err(err) => {
+            bad.push(("unreadable", format!("wire frame cannot be read back: {err}")));
+            return bad;
+        }
+    };
+    // (ii)
+    if back.stream_kind() != e.stream_kind() || back.stream_id() != e.stream_id() {
+        bad.push(("stream_changed", format!("{:?}/{} became {:?}/{}", e.stream_kind(), e.stream_id(), back.stream_kind(), back.stream_id())));
+    }
+    if variant_name(&back.kind) != name {
+        bad.push(("variant_changed", format!("{name} read back as {}", variant_name(&back.kind))));
+    }
+    // (i)
+    match wire(&back) {
+        Ok((_, w2)) => {
+            if !frame_eq(&w, &w2) {
+                bad.push(("wire_differs_after_reread", first_diff(&w, &w2)));
+            }
+        }
+        Err((_, err)) => bad.push(("reserialize_failed", err)),
+    }
+    // (iv)
+    let dbg = format!("{back:?}");
+    let mut found = std::collections::HashSet::new();
+    tokens_in(&dbg, &prefix, &mut found);
+    for t in &exp.tokens {
+        if !found.contains(t) {
+            bad.push(("token_lost_at_read", format!("token {t} not in the re-read frame")));
+            break;
+        }
+    }
+    if !exp.some_null && dbg != format!("{e:?}") {
+        bad.push(("field_altered_at_read", "Debug of the re-read frame differs from the original".to_string()));
+    }
+    bad
+}
+
+fn first_diff(a: &Value, b: &Value) -> String {
+    if let (Value::Object(x), Value::Object(y)) = (a, b) {
+        for (k, v) in x {
+            match y.get(k) {
+                None if !v.is_null() => return format!("key {k} disappeared"),
+                Some(w) if !strict_eq(v, w) => {
+                    let p: String = v.to_string().chars().take(80).collect();
+                    let q: String = w.to_string().chars().take(80).collect();
+                    return format!("key {k}: {p} -> {q}");
+                }
+                _ => {}
+            }
+        }
+        for (k, w) in y {
+            if !x.contains_key(k) && !w.is_null() {
+                return format!("key {k} appeared");
+            }
+        }
+    }
+    "values differ".to_string()
+}
+
+fn flavor_of(idx: u64) -> Flavor {
+    FLAVORS[((idx / N_VARIANTS as u64) % FLAVORS.len() as u64) as usize]
+}
+
+/// One generated frame through the serde oracle. Returns the event for the file round trips.
+fn frames_case(r: &mut Report, seed: u64, idx: u64) -> Option<Event> {
+    let flavor = flavor_of(idx);
+    let mut g = Gen::new(crate::prng::Rng::derive(seed, idx).next_u64(), flavor);
+    let e = g.event(idx as usize);
+    let name = variant_name(&e.kind);
+    let exp = Expected { tokens: g.tokens.clone(), strings: g.strings.clone(), numbers: g.numbers.clone(), some_null: g.used_some_null };
+    r.eval();
+    r.distinct_str(&format!("{name}|{flavor:?}|{}", g.shape));
+    r.count("a_tokens_checked", exp.tokens.len() as u64);
+    r.count(&format!("a_flavor:{flavor:?}"), 1);
+    if g.max_depth > 0 {
+        r.count("a_frames_with_deep_nesting", 1);
+    }
+    let bad = judge_frame(&e, &exp);
+    for (check, detail) in &bad {
+        r.violation(
+            &format!("C03/roundtrip/{check}/{name}"),
+            &format!("{name} frame ({flavor:?}): {detail}"),
+            json!({"part": "A", "case": idx, "variant": name, "flavor": format!("{flavor:?}"), "detail": detail,
+                   "wire_head": serde_json::to_string(&e).unwrap_or_default().chars().take(600).collect::<String>()}),
+        );
+    }
+    if bad.iter().any(|(c, _)| *c == "unreadable" || *c == "serialize_failed" || *c == "wire_unparseable") {
+        return None; // would poison the batch files
+    }
+    Some(e)
+}
+
+/// The same frames through EventLog::append → replay / replay_stream and write_snapshot → read_snapshot.
+fn files_round_trip(r: &mut Report, batch: &mut Vec<Event>, idx: u64) {
+    let dir = crate::fixture::scratch_root().join(format!("c03a-{idx}"));
+    let _ = std::fs::remove_dir_all(&dir);
+    let _ = std::fs::create_dir_all(&dir);
+    // make the batch a valid log: seq 0,1,2,… per stream; frames of one stream kind share a stream id in thirds
+    let ids = ["stream-a", "stream-b\u{2028}é", "stream c"];
+    let mut next: std::collections::HashMap<(String, String), u64> = std::collections::HashMap::new();
+    for (i, e) in batch.iter_mut().enumerate() {
+        e.session_id = ids[i % 3].to_string();
+        let key = (format!("{:?}", e.stream_kind()), e.session_id.clone());
+        let n = next.entry(key).or_insert(0);
+        e.seq = *n;
+        *n += 1;
+    }
+    let witness = |what: &str, i: usize, e: &Event| {
+        json!({"part": "A", "case": idx, "what": what, "index": i, "variant": variant_name(&e.kind),
+               "wire_head": serde_json::to_string(e).unwrap_or_default().chars().take(600).collect::<String>()})
+    };
+    let log_path = dir.join("events.jsonl");
+    'log: {
+        let log = match rip_log::EventLog::new(&log_path) {
+            Ok(l) => l,
+            Err(e) => {
+                r.inconclusive(&format!("cannot create scratch log: {e}"));
+                break 'log;
+            }
+        };
+        for e in batch.iter() {
+            if let Err(err) = log.append(e) {
+                r.violation(
+                    &format!("C03/log/append_failed/{}", variant_name(&e.kind)),
+                    &format!("EventLog::append rejected a frame: {err}"),
+                    witness("append", 0, e),
+                );
+                break 'log;
+            }
+        }
+        // the file is whole lines, one per frame
+        let bytes = std::fs::read(&log_path).unwrap_or_default();
+        match truth::parse_log(&bytes) {
+            Ok(frames) if frames.len() == batch.len() => {}
+            Ok(frames) => {
+                r.violation(
+                    "C03/log/line_count",
+                    &format!("{} frames appended, {} lines in the file (a payload broke the line framing)", batch.len(), frames.len()),
+                    json!({"part": "A", "case": idx}),
+                );
+                break 'log;
+            }
+            Err(e) => {
+                r.violation(&format!("C03/log/structure/{}", e.kind), &format!("log of generated frames is not whole JSON lines: {}", e.detail), json!({"part": "A", "case": idx}));
+                break 'log;
+            }
+        }
+        match log.replay() {
+            Ok(back) => {
+                if back.len() != batch.len() {
+                    r.violation("C03/log/replay_count", &format!("{} appended, {} replayed", batch.len(), back.len()), json!({"part": "A", "case": idx}));
+                    break 'log;
+                }
+                for (i, (a, b)) in batch.iter().zip(back.iter()).enumerate() {
+                    let (wa, wb) = (serde_json::to_value(a).unwrap_or(Value::Null), serde_json::to_value(b).unwrap_or(Value::Null));
+                    if !frame_eq(&wa, &wb) || a.stream_kind() != b.stream_kind() || a.stream_id() != b.stream_id() {
+                        r.violation(
+                            &format!("C03/log/replay_differs/{}", variant_name(&a.kind)),
+                            &format!("frame {i} replayed from the log differs from what was appended: {}", first_diff(&wa, &wb)),
+                            witness("replay", i, a),
+                        );
+                        break 'log;
+                    }
+                }
+                r.count("a_frames_through_log", batch.len() as u64);
+            }
+            Err(err) => {
+                r.violation("C03/log/replay_failed", &format!("EventLog::replay failed on generated frames: {err}"), json!({"part": "A", "case": idx}));
+                break 'log;
+            }
+        }
+        // stream assignment on read: every stream replays exactly its frames
+        for ((_, sid), n) in next.iter() {
+            for kind in [rip_kernel::StreamKind::Session, rip_kernel::StreamKind::Task, rip_kernel::StreamKind::Continuity] {
+                let expect: Vec<&Event> = batch.iter().filter(|e| e.stream_kind() == kind && e.session_id == *sid).collect();
+                if expect.is_empty() {
+                    continue;
+                }
+                let _ = n;
+                match log.replay_stream(kind, sid) {
+                    Ok(got) => {
+                        let same = got.len() == expect.len() && got.iter().zip(expect.iter()).all(|(a, b)| a.id == b.id);
+                        if !same {
+                            r.violation(
+                                &format!("C03/log/replay_stream_assignment/{kind:?}"),
+                                &format!("replay_stream({kind:?}, {sid:?}) returned {} frames, {} were appended to it", got.len(), expect.len()),
+                                json!({"part": "A", "case": idx}),
+                            );
+                        }
+                        r.count("a_streams_replayed", 1);
+                    }
+                    Err(err) => {
+                        r.violation("C03/log/replay_stream_failed", &format!("replay_stream failed on a valid generated log: {err}"), json!({"part": "A", "case": idx}));
+                        break 'log;
+                    }
+                }
+            }
+        }
+    }
+    // snapshot
+    let snap_dir = dir.join("snapshots");
+    match rip_log::write_snapshot(&snap_dir, "snap", batch) {
+        Ok(path) => match rip_log::read_snapshot(&path) {
+            Ok(back) => {
+                if back.len() != batch.len() {
+                    r.violation("C03/snapshot/count", &format!("{} written, {} read", batch.len(), back.len()), json!({"part": "A", "case": idx}));
+                } else {
+                    for (i, (a, b)) in batch.iter().zip(back.iter()).enumerate() {
+                        let (wa, wb) = (serde_json::to_value(a).unwrap_or(Value::Null), serde_json::to_value(b).unwrap_or(Value::Null));
+                        if !frame_eq(&wa, &wb) {
+                            r.violation(
+                                &format!("C03/snapshot/differs/{}", variant_name(&a.kind)),
+                                &format!("frame {i} read from the snapshot differs: {}", first_diff(&wa, &wb)),
+                                witness("snapshot", i, a),
+                            );
+                            break;
+                        }
+                    }
+                    r.count("a_frames_through_snapshot", batch.len() as u64);
+                }
+            }
+            Err(err) => r.violation("C03/snapshot/read_failed", &format!("read_snapshot failed on generated frames: {err}"), json!({"part": "A", "case": idx})),
+        },
+        Err(err) => r.inconclusive(&format!("cannot write scratch snapshot: {err}")),
+    }
+    let _ = std::fs::remove_dir_all(&dir);
+    batch.clear();
+}
+
+/// Deterministic inputs: coverage of all variants, compat aliases, nesting at the parser's limit.
+fn directed_frames(r: &mut Report) {
+    // every variant is produced by the table
+    let mut names = std::collections::BTreeSet::new();
+    for i in 0..N_VARIANTS {
+        let mut g = Gen::new(i as u64, Flavor::Full);
+        names.insert(variant_name(&g.kind(i)));
+    }
+    r.count("a_variants_covered", names.len() as u64);
+    if names.len() != N_VARIANTS {
+        r.fatal_inconclusive(&format!("generator covers {} of {N_VARIANTS} variants", names.len()));
+    }
+    // compat aliases as inputs
+    let env = |ty: &str, extra: Value| {
+        let mut v = json!({"id": "alias-id", "session_id": "alias-s", "timestamp_ms": 5, "seq": 0, "type": ty});
+        for (k, x) in extra.as_object().unwrap() {
+            v[k] = x.clone();
+        }
+        v
+    };
+    let cases = [
+        ("session_started+prompt", env("session_started", json!({"prompt": "tkaliasq1z"})), "session_started", Some("tkaliasq1z")),
+        ("output+content", env("output", json!({"content": "tkaliasq2z"})), "output_text_delta", Some("tkaliasq2z")),
+        ("output+delta", env("output", json!({"delta": "tkaliasq3z"})), "output_text_delta", Some("tkaliasq3z")),
+        ("output_text_delta+content", env("output_text_delta", json!({"content": "tkaliasq4z"})), "output_text_delta", Some("tkaliasq4z")),
+        ("session_started_without_input", env("session_started", json!({})), "session_started", None),
+        ("with_stream_envelope", env("session_ended", json!({"reason": "tkaliasq5z", "stream_kind": "session", "stream_id": "alias-s"})), "session_ended", Some("tkaliasq5z")),
+    ];
+    for (label, input, want, tok) in cases {
+        r.eval();
+        r.distinct_str(&format!("alias|{label}"));
+        match serde_json::from_value::<Event>(input.clone()) {
+            Ok(e) => {
+                let dbg = format!("{e:?}");
+                let ok = variant_name(&e.kind) == want && tok.map(|t| dbg.contains(t)).unwrap_or(true);
+                let stable = wire(&e).ok().and_then(|(t, w)| serde_json::from_str::<Event>(&t).ok().and_then(|b| wire(&b).ok()).map(|(_, w2)| frame_eq(&w, &w2))).unwrap_or(false);
+                if !ok || !stable {
+                    r.violation(
+                        &format!("C03/roundtrip/compat_alias/{label}"),
+                        &format!("compat input {label} read as {} (token kept: {}, stable: {stable})", variant_name(&e.kind), tok.map(|t| dbg.contains(t)).unwrap_or(true)),
+                        json!({"part": "A", "case": 0, "input": input}),
+                    );
+                }
+            }
+            Err(err) => r.violation(
+                &format!("C03/roundtrip/compat_alias_unreadable/{label}"),
+                &format!("documented compat input {label} cannot be read: {err}"),
+                json!({"part": "A", "case": 0, "input": input}),
+            ),
+        }
+    }
+    r.count("a_compat_alias_inputs", 6);
+    // nesting: payloads as deep as serde_json itself accepts when the payload is parsed on its own
+    // (tool args / provider data arrive that way) must survive being embedded in a frame
+    // (rip caps payload nesting at 100 levels when it builds these frames — rip_provider_openresponses::
+    // MAX_FRAME_PAYLOAD_NESTING — so deeper payloads are not frames the system can emit; the end-to-end
+    // probe in part B checks that a deeper provider payload indeed never reaches the log unreadable)
+    for depth in [16usize, 64, 90, 99, 100] {
+        let mut text = String::new();
+        for _ in 0..depth {
+            text.push('[');
+        }
+        text.push_str("\"tkdeepq1z\"");
+        for _ in 0..depth {
+            text.push(']');
+        }
+        let Ok(payload) = serde_json::from_str::<Value>(&text) else {
+            continue; // serde_json itself refuses this depth: such a payload cannot enter the system
+        };
+        for (which, kind) in [
+            ("tool_started.args", rip_kernel::EventKind::ToolStarted { tool_id: "t".into(), name: "n".into(), args: payload.clone(), timeout_ms: None }),
+            ("provider_event.data", rip_kernel::EventKind::ProviderEvent {
+                provider: "p".into(),
+                status: rip_kernel::ProviderEventStatus::Event,
+                event_name: None,
+                data: Some(payload.clone()),
+                raw: None,
+                errors: vec![],
+                response_errors: vec![],
+            }),
+        ] {
+            let e = Event { id: "deep".into(), session_id: "deep-s".into(), timestamp_ms: 1, seq: 0, kind };
+            let exp = Expected { tokens: vec!["tkdeepq1z".into()], strings: vec![], numbers: vec![], some_null: false };
+            r.eval();
+            r.distinct_str(&format!("deep|{which}|{depth}"));
+            for (check, detail) in judge_frame(&e, &exp) {
+                r.violation(
+                    &format!("C03/roundtrip/{check}/deep_payload/{which}"),
+                    &format!("{which} holding a {depth}-deep JSON payload (accepted by serde_json on its own): {detail}"),
+                    json!({"part": "A", "case": 0, "depth": depth, "field": which}),
+                );
+            }
+        }
+        r.count("a_deep_payload_probes", 2);
+    }
 }
